@@ -154,6 +154,11 @@ def gen_panel(r, g, n_geos, n_dates, cls='continuous', id_style='str', origin=No
     dates = [d.strftime('%d/%m/%Y') for d in days]
   elif date_style == 'tz':
     dates = [pd.Timestamp(d, tz='US/Eastern') for d in days]
+  elif date_style == 'dst_hourly':
+    # hourly tz-aware stamps running through the autumn change from daylight-saving to standard time: the wall-clock
+    # hour 01:00 occurs twice (two distinct instants)
+    start = pd.Timestamp('2021-11-07 05:00', tz='UTC') - pd.Timedelta(hours=r.randrange(1, max(2, D - 1)))
+    dates = [(start + pd.Timedelta(hours=k)).tz_convert('US/Eastern') for k in range(D)]
   elif date_style == 'timeofday':
     dates = [pd.Timestamp(d) + pd.Timedelta(hours=(8 if k % 2 else 20)) for k, d in enumerate(days)]
   elif date_style == 'ns':
